@@ -128,6 +128,9 @@ func (round *round4) Start() *tss.Error {
 		round.save.NTildej[j] = new(big.Int).SetBytes(r2msg1.NTilde)
 		round.save.H1j[j] = new(big.Int).SetBytes(r2msg1.H1)
 		round.save.H2j[j] = new(big.Int).SetBytes(r2msg1.H2)
+		// the Paillier key is saved here, from the message whose proofs were just verified: round 5 must not
+		// read the message store again (a peer may have re-sent a different message in the meantime)
+		round.save.PaillierPKs[j] = r2msg1.UnmarshalPaillierPK()
 	}
 
 	// 4.
